@@ -314,6 +314,7 @@ func C15(p *core.Program, r *core.Report) {
 
 	// "delivered" is reported when AgentManager.Deliver returned nil: that result must stand for a hand-over
 	checkHandOverConfirmed(p, r)
+	checkDeliverGuard(p, r)
 
 	// "forwarded" is reported exactly when one sender's Send returned nil (forward's sent flag, checked above), so the
 	// report is truthful only if no Send implementation returns nil after one of its own steps failed.
